@@ -246,7 +246,7 @@ theorem step_mono {N : Nat} {s s' : State} {a : Action} (h : Inv N s) (hs : step
         · subst hk; simp
         · simp [setNode, hk]
     · cases hs
-  | sendAppend n dst prev k =>
+  | sendAppend n dst prev k c =>
     simp only [step] at hs
     split at hs
     · injection hs with hs; subst hs
@@ -333,7 +333,7 @@ theorem step_mono {N : Nat} {s s' : State} {a : Action} (h : Inv N s) (hs : step
       · simp; omega
       · exact Nat.le_refl _
     · cases hs
-  | sendSnapshot n dst k =>
+  | sendSnapshot n dst k c =>
     simp only [step] at hs
     split at hs
     · injection hs with hs; subst hs
